@@ -24,7 +24,7 @@ const floatCaveat = "that evaluating the extracted term in IEEE-754 double arith
 // Score function sees is the state the decoder produced - whichever decoder
 // produced it and whatever was queried in between.
 func (e *Env) objectIntegrity(v *spec.Version, upTo string) {
-	e.C.Explanation += " From vector to score (object integrity): the fields the equation reads are written only by their own level's per-token decoder and constructor; a token NAME:VALUE is stored as parser(VALUE) in the field NAME and the one value test of an arm is against the type's unknown/invalid constant (wiring, arm-parser, arm-value); every higher level hands each token to the level below first (delegation-first); each Decode fills in and returns the object it was called on, or a fresh one for a nil receiver (nil-receiver-decode); and a well-formed vector is not rejected: every rejecting path of a per-token decoder, of a Decode and of a GetError is caused by a defect the specification names (reject-path, decode-rejections, validity-rejections)."
+	e.C.Explanation += " From vector to score (object integrity): the fields the equation reads are written only by their own level's per-token decoder and constructor; a token NAME:VALUE is stored as parser(VALUE) in the field NAME and the one value test of an arm is against the type's unknown/invalid constant (wiring, arm-parser, arm-value); every higher level hands each token to the level below first (delegation-first); each Decode fills in and returns the object it was called on, or a fresh one for a nil receiver (nil-receiver-decode), and records GetVersion's result as the object's version (version-recorded); and a well-formed vector is not rejected: every rejecting path of a per-token decoder, of a Decode and of a GetError is caused by a defect the specification names (reject-path, decode-rejections, validity-rejections)."
 	all, err := e.F.Levels(v)
 	if err != nil {
 		return
@@ -89,7 +89,9 @@ func (e *Env) objectIntegrity(v *spec.Version, upTo string) {
 	kept = e.C.Obs[:before]
 	for _, o := range e.C.Obs[before:] {
 		switch o.Rule {
-		case "nil-receiver-decode", "decode-rejections", "validity-rejections":
+		case "nil-receiver-decode", "decode-rejections", "validity-rejections", "version-recorded":
+			// version-recorded: the v3 environmental equation reads the object's own Ver, which must be what
+			// GetVersion made of the vector's prefix - at every level's Decode
 			kept = append(kept, o)
 		}
 	}
